@@ -239,6 +239,8 @@ def run(chk, ctx) -> None:
     chk.floor('C20.patterns', 6 * 13)
     chk.floor('C20.conventions', 6)
     chk.floor('C20.variants', 6)
+    from .helpers import rotated_helper
+    rotated_helper(chk, ctx, 'C20.order')
     _bookkeeping(chk, ctx, base)
     _errors(chk, ctx)
     _order(chk, ctx, base)
